@@ -225,17 +225,26 @@ def check_task_done_pairing(c: Ctx) -> None:
     'exactly on the paths that dequeued (flag-correlated in step)')
 def c10_5(c: Ctx) -> None:
     check_task_done_pairing(c)
-    # no task_done without a dequeue
-    for u, call in [(u, n) for u in c.prog.units.values() if u.module in (SVC, MOD) for n in own_nodes(u.node) if isinstance(n, ast.Call) and call_name(n) == 'task_done']:
-        if u.key == c.unit(SVC, 'EventBus.step').key:
-            g = c.cfg(u)
-            facts = Facts(lambda a: a == 'from_queue', cg=c.cg, unit=u)
-            for n in g.nodes_of(q.stmt_of(call)):
-                p = q.guard_search(g, n, 'from_queue', facts)
-                if p is None:
-                    c.ok(where(u, call), 'step calls task_done() only when the event came from the queue')
-                else:
-                    c.fail(u, 'task_done() in step not guarded by from_queue', 'task_done() for an event that was passed in, not dequeued: ValueError / join() returns early', node=call, witness=c.path(g.entry, p))
+    # no task_done without a dequeue: in step the call is guarded by a local flag that is True only on the dequeue branch
+    st = c.unit(SVC, 'EventBus.step')
+    for call in [n for n in own_nodes(st.node) if isinstance(n, ast.Call) and call_name(n) == 'task_done']:
+        g = c.cfg(st)
+        gi = q.enclosing(call, (ast.If,))
+        flag = gi.test.id if gi is not None and isinstance(gi.test, ast.Name) else None
+        if flag is None:
+            c.fail(st, 'task_done() in step is not guarded by a dequeue flag', 'task_done() for an event that was passed in, not dequeued: ValueError / join() returns early', node=call)
+            continue
+        defs = [n for n in own_nodes(st.node) if isinstance(n, ast.Assign) and U(n.targets[0]) == flag]
+        trues = [n for n in defs if isinstance(n.value, ast.Constant) and n.value.value is True]
+        falses = [n for n in defs if isinstance(n.value, ast.Constant) and n.value.value is False]
+        deq_blocks = [q.block_of(q.stmt_of(cc)) for cu, cc in c.cg.callers(c.unit(SVC, 'EventBus._get_next_event')) if cu.key == st.key]
+        ok_flag = len(defs) == len(trues) + len(falses) and falses and trues and all(any(blk is not None and any(x is t for x in blk) for blk in deq_blocks) for t in trues)
+        facts = Facts(lambda a: a == flag, cg=c.cg, unit=st)
+        bad = [p for n in g.nodes_of(q.stmt_of(call)) if (p := q.guard_search(g, n, flag, facts)) is not None]
+        if ok_flag and not bad:
+            c.ok(where(st, call), f'step calls task_done() only when `{flag}` is set, and `{flag}` is set only next to the dequeue')
+        else:
+            c.fail(st, 'task_done() in step not correlated with the dequeue', 'task_done() for an event that was passed in, not dequeued: ValueError / join() returns early', node=call, witness=c.path(g.entry, bad[0]) if bad else [])
 
 
 @ob('C10.6', 'ESC/MPT', 'process_event reaches event_mark_complete… for its event on cancellation exits too (a child cancelled by its parent\'s timeout while processed inline must '
